@@ -296,7 +296,7 @@ func FuzzKeyParse(f *testing.F) {
 	f.Add(seed(1, 48, ^uint64(0), 2, 15, "consensusStatescommitments"))
 	f.Add(seed(0, 255, 0, 0, 0, ""))
 	f.Add(seed(9000, 1<<63, 12079, 1, 64, string(bytes.Repeat([]byte{7}, 128))))
-	f.Add(seed(0, 47, 1, 0, 3, "abcdef"))      // byte 0x2f: exercises the exclusion of the listed findings
+	f.Add(seed(0, 47, 1, 0, 3, "abcdef"))        // byte 0x2f: exercises the exclusion of the listed findings
 	f.Add(seed(47<<56, 303, 47, 2, 3, "a.bA.B")) // byte 0x2f in the revision
 	f.Fuzz(func(t *testing.T, data []byte) {
 		if msg := keyParseCheck(data); msg != "" {
